@@ -1,13 +1,18 @@
 open Model
 open Zio
 (* line protocol (all ints):
-     run|detail <cap or -1> <lazy> <S> <drive_0..drive_{S-1}> <nsrc> {<num or -1> <kind> <k> <v>}*nsrc
-                <killer: -1 none | 0 | 1> <nfut> <nsched> <tid>*nsched
+     run|detail|cover <cap or -1> <lazy> <S> <drive_0..drive_{S-1}> <nsrc> {<num or -1> <kind> <k> <v>}*nsrc
+                <killer: -1 none | 0 | 1> <nfut> <nsched | max states> <tid>*nsched
    kind 0 = Plain v (k ignored), 1 = Fut k v.   tid: 0 sender, 1..S readers, S+1 killer, S+2+k worker k.
-     cover <same configuration> <killer> <nfut> <max number of states>
-   output: observations after each step separated by " | "; "DISABLED <pos>" appended when the thread
-   scheduled at position pos is not enabled in the model; final token "T"/"N" = all_terminal or not,
-   followed by the list of enabled tids of the last state. *)
+     drun|dcover <cap or -1> <lazy> <nmb> {<flow_freely> <nsubs> <drive>*nsubs}*nmb <ndicts>
+                <nsched | max states> <tid>*nsched
+   divide_outputs over nmb mailboxes; component j of dict i is Plain (100*j+i); tid 0 = the divider,
+   then the subscribers mailbox by mailbox.
+   output of run/detail/drun: observations after each step separated by " | "; "DISABLED <pos>" appended
+   when the thread scheduled at position pos is not enabled in the model; then " # T|N <enabled tids>"
+   (T = all threads finished).
+   output of cover/dcover: <nstates> <ntransitions> <truncated 0/1> <nterminal> <ndeadlock> followed by
+   " ; <schedule>" for a set of maximal schedules that traverses every transition of the reachable graph. *)
 let rec items n l = if n <= 0 then ([], l) else
   match l with
   | num :: kind :: k :: v :: r ->
@@ -18,24 +23,20 @@ let rec items n l = if n <= 0 then ([], l) else
 let tid_of s t = if t = 0 then TS else if t <= s then TR (nat_of_int (t - 1))
   else if t = s + 1 then TK else TW (nat_of_int (t - s - 2))
 
-(* "cover": breadth-first enumeration of the model's reachable state graph for one configuration and
-   a set of schedules (paths from the initial state) that together traverse every transition.
-   output: <nstates> <nedges> <truncated 0/1> <nterminal> <ndeadlock> ; sched ; sched ; ...  *)
+(* breadth-first enumeration of a reachable state graph and a set of schedules (paths from the initial
+   state) that together traverse every transition.  stepf st t = the successor or None. *)
 module SM = Map.Make (String)
-let key (st : state) = Marshal.to_string st []
-let cover cfg st0 ntid s maxstates =
+let cover (type a) (stepf : a -> int -> a option) (terminal : a -> bool) (st0 : a) ntid maxstates =
+  let key (st : a) = Marshal.to_string st [] in
   let tids = List.init ntid (fun i -> i) in
   let ids = ref SM.empty in
-  let states = ref [||] in
   let parent = Hashtbl.create 1024 in      (* id -> (parent id, tid) *)
   let succ = Hashtbl.create 1024 in        (* id -> (tid, id) list *)
-  let n = ref 0 in
-  let add st = states := Array.append !states [| st |]; incr n; !n - 1 in
-  let buf = ref [] in
+  let n = ref 1 in
   let truncated = ref false in
   let q = Queue.create () in
-  ids := SM.add (key st0) 0 !ids; buf := [st0]; n := 1;
-  let tbl = Hashtbl.create 1024 in         (* id -> state *)
+  ids := SM.add (key st0) 0 !ids;
+  let tbl : (int, a) Hashtbl.t = Hashtbl.create 1024 in
   Hashtbl.replace tbl 0 st0;
   Queue.add 0 q;
   let nedges = ref 0 and nterm = ref 0 and ndead = ref 0 in
@@ -43,7 +44,7 @@ let cover cfg st0 ntid s maxstates =
     let i = Queue.pop q in
     let st = Hashtbl.find tbl i in
     let out = List.filter_map (fun t ->
-      match step cfg st (tid_of s t) with
+      match stepf st t with
       | None -> None
       | Some st' ->
           let k = key st' in
@@ -56,33 +57,22 @@ let cover cfg st0 ntid s maxstates =
                 if !n <= maxstates then Queue.add j q else truncated := true;
                 j) in
           incr nedges; Some (t, j)) tids in
-    if out = [] then (if all_terminal st then incr nterm else incr ndead);
+    if out = [] then (if terminal st then incr nterm else incr ndead);
     Hashtbl.replace succ i out
   done;
-  ignore add; ignore buf; ignore states;
-  (* path from the root to state i *)
   let rec path i acc = if i = 0 then acc else let (p, t) = Hashtbl.find parent i in path p (t :: acc) in
   let covered = Hashtbl.create 1024 in
   let scheds = ref [] in
+  (* follow uncovered transitions as long as there are any; otherwise the first transition, until the
+     run ends, so that every emitted schedule is maximal *)
   let rec extend i acc =
-    (* follow uncovered transitions as long as there are any; otherwise the first transition, until
-       the run ends, so that every emitted schedule is maximal *)
     match (try Hashtbl.find succ i with Not_found -> []) with
     | [] -> List.rev acc
     | out ->
-        (match List.find_opt (fun (t, j) -> not (Hashtbl.mem covered (i, t))) out with
+        (match List.find_opt (fun (t, _) -> not (Hashtbl.mem covered (i, t))) out with
          | Some (t, j) -> Hashtbl.replace covered (i, t) (); extend j (t :: acc)
          | None -> let (t, j) = List.hd out in
-                   if List.length acc > 400 then List.rev acc else extend_done j (t :: acc))
-  and extend_done i acc =
-    (* no new transition here: finish the run along first transitions (bounded) *)
-    match (try Hashtbl.find succ i with Not_found -> []) with
-    | [] -> List.rev acc
-    | out ->
-        (match List.find_opt (fun (t, j) -> not (Hashtbl.mem covered (i, t))) out with
-         | Some (t, j) -> Hashtbl.replace covered (i, t) (); extend j (t :: acc)
-         | None -> let (t, j) = List.hd out in
-                   if List.length acc > 400 then List.rev acc else extend_done j (t :: acc))
+                   if List.length acc > 400 then List.rev acc else extend j (t :: acc))
   in
   for i = 0 to !n - 1 do
     List.iter (fun (t, j) ->
@@ -95,35 +85,77 @@ let cover cfg st0 ntid s maxstates =
   Printf.sprintf "%d %d %d %d %d" !n !nedges (if !truncated then 1 else 0) !nterm !ndead
   ^ String.concat "" (List.map (fun sc -> " ; " ^ join sc) (List.rev !scheds))
 
+let render view enabledf terminal sts st0 nsched ntid =
+  let parts = List.map (fun st -> join (List.map int_of_z (view st))) sts in
+  let n = List.length sts in
+  let last = if n = 0 then st0 else List.nth sts (n - 1) in
+  let dis = if n < nsched then [Printf.sprintf "DISABLED %d" n] else [] in
+  let en = List.filter (fun t -> enabledf last t) (List.init ntid (fun i -> i)) in
+  String.concat " | " (parts @ dis) ^ " # " ^ (if terminal last then "T" else "N") ^ " " ^ join en
+
+let handle_mailbox cmd r =
+  match r with
+  | cap :: lz :: s :: r ->
+      let drives = List.map (fun x -> x <> 0) (take s r) in
+      let r = drop s r in
+      (match r with
+       | nsrc :: r ->
+           let (source, r) = items nsrc r in
+           (match r with
+            | killer :: nfut :: nsched :: r ->
+                let cfg = { c_cap = (if cap < 0 then None else Some (nat_of_int cap)); c_lazy = (lz <> 0) } in
+                let k = if killer < 0 then None else Some (killer <> 0) in
+                let st0 = init cfg drives source k (nat_of_int nfut) in
+                let ntid = s + 2 + nfut in
+                if cmd = "cover" then
+                  cover (fun st t -> step cfg st (tid_of s t)) all_terminal st0 ntid nsched
+                else begin
+                  let sched = List.map (tid_of s) (take nsched r) in
+                  let sts = trace cfg st0 sched in
+                  render (if cmd = "detail" then detail else obs) (fun st t -> enabled st (tid_of s t))
+                    all_terminal sts st0 nsched ntid
+                end
+            | _ -> "BAD")
+       | _ -> "BAD")
+  | _ -> "BAD"
+
+let rec mailboxes n l = if n <= 0 then ([], l) else
+  match l with
+  | ff :: ns :: r ->
+      let dr = List.map (fun x -> x <> 0) (take ns r) in
+      let (rest, r') = mailboxes (n - 1) (drop ns r) in
+      ((ff <> 0, dr) :: rest, r')
+  | _ -> failwith "mailboxes"
+
+let handle_divider cmd r =
+  match r with
+  | cap :: lz :: nmb :: r ->
+      let (mbs, r) = mailboxes nmb r in
+      (match r with
+       | ndicts :: nsched :: r ->
+           let dc = { dc_cap = (if cap < 0 then None else Some (nat_of_int cap)); dc_lazy = (lz <> 0);
+                      dc_ff = List.map fst mbs } in
+           let subs = List.map snd mbs in
+           let comps = List.mapi (fun j _ -> List.init ndicts (fun i -> Plain (z_of_int (100 * j + i)))) mbs in
+           let st0 = dinit dc subs comps (nat_of_int ndicts) in
+           (* tid table: 0 divider, then readers mailbox by mailbox *)
+           let table = Array.of_list (DT :: List.concat (List.mapi (fun j dr ->
+             List.mapi (fun i _ -> DR (nat_of_int j, nat_of_int i)) dr) subs)) in
+           let ntid = Array.length table in
+           if cmd = "dcover" then
+             cover (fun st t -> dstep dc st table.(t)) d_all_terminal st0 ntid nsched
+           else begin
+             let sched = List.map (fun t -> table.(t)) (take nsched r) in
+             let sts = dtrace dc st0 sched in
+             render dobs (fun st t -> denabled st table.(t)) d_all_terminal sts st0 nsched ntid
+           end
+       | _ -> "BAD")
+  | _ -> "BAD"
+
 let handle toks =
   match toks with
   | cmd :: rest ->
-      (match ints rest with
-       | cap :: lz :: s :: r ->
-           let drives = List.map (fun x -> x <> 0) (take s r) in
-           let r = drop s r in
-           (match r with
-            | nsrc :: r ->
-                let (source, r) = items nsrc r in
-                (match r with
-                 | killer :: nfut :: nsched :: r ->
-                     let cfg = { c_cap = (if cap < 0 then None else Some (nat_of_int cap)); c_lazy = (lz <> 0) } in
-                     let k = if killer < 0 then None else Some (killer <> 0) in
-                     let st0 = init cfg drives source k (nat_of_int nfut) in
-                     let ntid = s + 2 + nfut in
-                     if cmd = "cover" then cover cfg st0 ntid s nsched else begin
-                     let sched = List.map (tid_of s) (take nsched r) in
-                     let sts = trace cfg st0 sched in
-                     let view = if cmd = "detail" then detail else obs in
-                     let parts = List.map (fun st -> join (List.map int_of_z (view st))) sts in
-                     let n = List.length sts in
-                     let last = if n = 0 then st0 else List.nth sts (n - 1) in
-                     let dis = if n < nsched then [Printf.sprintf "DISABLED %d" n] else [] in
-                     let en = List.filter (fun t -> enabled last (tid_of s t)) (List.init ntid (fun i -> i)) in
-                     String.concat " | " (parts @ dis) ^ " # " ^ (if all_terminal last then "T" else "N")
-                     ^ " " ^ join en end
-                 | _ -> "BAD")
-            | _ -> "BAD")
-       | _ -> "BAD")
+      let r = ints rest in
+      if cmd = "drun" || cmd = "dcover" then handle_divider cmd r else handle_mailbox cmd r
   | _ -> "UNKNOWN"
 let () = main_loop handle
